@@ -138,7 +138,7 @@ static std::string capture_drain() {
 static volatile uint64_t g_cur_seed = 0;
 static volatile int g_cur_step = -1;
 static char g_cur_op[32] = "-";
-static char g_cur_owner[8] = "-";
+static char g_cur_owner[24] = "-";  // property ids owning the running step's post-condition, '+'-separated
 static volatile int g_in_run = 0;       // 1 while a plan is being executed
 static volatile int g_expect_exit = 0;  // 1 in a forked child that is expected to exit
 
